@@ -144,7 +144,9 @@ fn metric(
     fam: &str,
     expect: Option<(i64, i64)>,
 ) -> Option<Value> {
-    if ty == 0 {
+    if ty == 2 {
+        metric_nd(run, name, a, b, scores, b1, b2, fam)
+    } else if ty == 0 {
         metric_event::<f64>(run, name, "f64", a, b, scores, b1, b2, u, e, off, fam, expect)
     } else {
         metric_event::<f32>(run, name, "f32", a, b, scores, b1, b2, u, e, off, fam, expect)
@@ -173,6 +175,131 @@ fn family_scores(fam: &str, e: i32, ty: usize, ks: &[i64]) -> Vec<f64> {
             _ => k as f64,
         })
         .collect()
+}
+
+/// An adversarial ORDER of n distinct keys for the library's quicksort (input generation
+/// only).  McIlroy's "killer adversary": the routine of src/algorithm/sort/quick_sort.rs
+/// (insertion sort below 8 elements, median-of-three pivot moved to l+1, sentinel scans) is
+/// run here on item ids whose keys are decided lazily -- an item stays "gas" (larger than
+/// every decided key) until a comparison of two gas items forces one of them, the current
+/// pivot candidate, to be frozen at the next small value.  Every pivot therefore ends up
+/// among the smallest keys of its range and every partition step splits into a few
+/// elements and the rest: the partition tree degenerates into a chain as deep as n/2,
+/// which is what a sort with a bounded explicit stack must survive.  Returns the key of
+/// every position (a permutation of 0..n-1).
+fn killer_order(n: usize) -> Vec<i64> {
+    struct Adv {
+        val: Vec<i64>,
+        gas: i64,
+        nsolid: i64,
+        candidate: usize,
+    }
+    impl Adv {
+        fn freeze(&mut self, x: usize) {
+            self.val[x] = self.nsolid;
+            self.nsolid += 1;
+        }
+        /// sign of key(x) - key(y)
+        fn cmp(&mut self, x: usize, y: usize) -> i64 {
+            if x == y {
+                return 0;
+            }
+            if self.val[x] == self.gas && self.val[y] == self.gas {
+                if x == self.candidate {
+                    self.freeze(x);
+                } else {
+                    self.freeze(y);
+                }
+            }
+            if self.val[x] == self.gas {
+                self.candidate = x;
+            } else if self.val[y] == self.gas {
+                self.candidate = y;
+            }
+            self.val[x] - self.val[y]
+        }
+    }
+    if n == 0 {
+        return vec![];
+    }
+    let mut ad = Adv { val: vec![n as i64; n], gas: n as i64, nsolid: 0, candidate: 0 };
+    let mut it: Vec<usize> = (0..n).collect(); // it[k] = id of the item now at position k
+    let mut stack: Vec<(usize, usize)> = Vec::new();
+    let (mut l, mut ir) = (0usize, n - 1);
+    loop {
+        if ir - l < 7 {
+            for j in l + 1..=ir {
+                let a = it[j];
+                let mut i = j as i64 - 1;
+                while i >= l as i64 {
+                    if ad.cmp(it[i as usize], a) <= 0 {
+                        break;
+                    }
+                    it[(i + 1) as usize] = it[i as usize];
+                    i -= 1;
+                }
+                it[(i + 1) as usize] = a;
+            }
+            match stack.pop() {
+                None => break,
+                Some((a, b)) => {
+                    l = a;
+                    ir = b;
+                }
+            }
+        } else {
+            let k = (l + ir) >> 1;
+            it.swap(k, l + 1);
+            if ad.cmp(it[l], it[ir]) > 0 {
+                it.swap(l, ir);
+            }
+            if ad.cmp(it[l + 1], it[ir]) > 0 {
+                it.swap(l + 1, ir);
+            }
+            if ad.cmp(it[l], it[l + 1]) > 0 {
+                it.swap(l, l + 1);
+            }
+            let mut i = l + 1;
+            let mut j = ir;
+            let a = it[l + 1];
+            loop {
+                loop {
+                    i += 1;
+                    if ad.cmp(it[i], a) >= 0 {
+                        break;
+                    }
+                }
+                loop {
+                    j -= 1;
+                    if ad.cmp(it[j], a) <= 0 {
+                        break;
+                    }
+                }
+                if j < i {
+                    break;
+                }
+                it.swap(i, j);
+            }
+            it[l + 1] = it[j];
+            it[j] = a;
+            // larger part deferred, smaller part next (as the library does)
+            if ir - i + 1 >= j - l {
+                stack.push((i, ir));
+                ir = j - 1;
+            } else {
+                stack.push((l, j - 1));
+                l = i;
+            }
+        }
+    }
+    // items never compared while gas keep the remaining large keys
+    for x in 0..n {
+        if ad.val[x] == ad.gas {
+            ad.val[x] = ad.nsolid;
+            ad.nsolid += 1;
+        }
+    }
+    ad.val
 }
 
 fn hcv_obs(h: f64, c: f64, v: f64) -> Value {
@@ -218,11 +345,71 @@ fn hcv_event<T: RealNumber>(run: i64, ty: &str, a: &[i64], b: &[i64], a2: &[i64]
 }
 
 fn hcv(ty: usize, run: i64, a: &[i64], b: &[i64], a2: &[i64], b2: &[i64]) -> Value {
-    if ty == 0 {
+    if ty == 2 {
+        hcv_nd(run, a, b, a2, b2)
+    } else if ty == 0 {
         hcv_event::<f64>(run, "f64", a, b, a2, b2)
     } else {
         hcv_event::<f32>(run, "f32", a, b, a2, b2)
     }
+}
+
+/// injective relabelling: a random injective table over the distinct labels
+/// owned ndarray vector holding `v` in logical order but laid out BACKWARDS in memory
+/// (negative stride): what `get(i)` and `to_vec()` return must not depend on the layout
+fn nd_reversed(v: &[f64]) -> ndarray::Array1<f64> {
+    let rev: Vec<f64> = v.iter().rev().cloned().collect();
+    ndarray::Array1::from(rev).slice_move(ndarray::s![..;-1])
+}
+
+/// the same calls as metric_event::<f64>, on strided ndarray vectors (ty "nd64")
+#[allow(clippy::too_many_arguments)]
+fn metric_nd(run: i64, name: &str, a: &[i64], b: &[i64], scores: Option<&[f64]>, b1: i64, b2: i64, fam: &str) -> Option<Value> {
+    let s = pick_s(num_bound(name, a, b, b1, b2))?;
+    let fa: Vec<f64> = a.iter().map(|&v| v as f64).collect();
+    let fb: Vec<f64> = match scores {
+        Some(sv) => sv.to_vec(),
+        None => b.iter().map(|&v| v as f64).collect(),
+    };
+    let (ya, yb) = (nd_reversed(&fa), nd_reversed(&fb));
+    let beta = b1 as f64 / b2 as f64;
+    let r = guard(|| match name {
+        "accuracy" => accuracy(&ya, &yb),
+        "precision" => precision(&ya, &yb),
+        "recall" => recall(&ya, &yb),
+        "fbeta" => f1(&ya, &yb, beta),
+        "auc" => roc_auc_score(&ya, &yb),
+        "mse" => mean_squared_error(&ya, &yb),
+        "mae" => mean_absolute_error(&ya, &yb),
+        "r2" => r2(&ya, &yb),
+        _ => panic!("unknown metric"),
+    });
+    let q = Q::new(s);
+    let (status, out) = match r {
+        Ok(v) => ("ok", q.x(v)),
+        Err(_) => ("panic", 0),
+    };
+    Some(json!({"run": run, "ev": "Metric", "name": name, "ty": "nd64", "S": s, "U": 1, "e": 0, "off": 0, "fam": fam,
+                "a": a, "b": b, "b1": b1, "b2": b2, "status": status, "fin": q.ok(), "out": out,
+                "hasExpect": false, "xnum": 0, "xden": 1}))
+}
+
+fn hcv_nd(run: i64, a: &[i64], b: &[i64], a2: &[i64], b2: &[i64]) -> Value {
+    let conv = |v: &[i64]| nd_reversed(&v.iter().map(|&x| x as f64).collect::<Vec<f64>>());
+    let (ya, yb, ya2, yb2) = (conv(a), conv(b), conv(a2), conv(b2));
+    let r = guard(|| {
+        let m = ClusterMetrics::hcv_score().get_score(&ya, &yb);
+        let sw = ClusterMetrics::hcv_score().get_score(&yb, &ya);
+        let rl = (homogeneity_score(&ya2, &yb2), completeness_score(&ya2, &yb2), v_measure_score(&ya2, &yb2));
+        (m, sw, rl)
+    });
+    let z = hcv_obs(0.0, 0.0, 0.0);
+    let (status, m, sw, rl) = match r {
+        Ok((m, sw, rl)) => ("ok", hcv_obs(m.0, m.1, m.2), hcv_obs(sw.0, sw.1, sw.2), hcv_obs(rl.0, rl.1, rl.2)),
+        Err(_) => ("panic", z.clone(), z.clone(), z),
+    };
+    json!({"run": run, "ev": "HCV", "ty": "nd64", "a": a, "b": b, "a2": a2, "b2": b2,
+           "status": status, "m": m, "sw": sw, "rl": rl})
 }
 
 /// injective relabelling: a random injective table over the distinct labels
@@ -240,7 +427,7 @@ fn relabel<R: Rng>(r: &mut R, a: &[i64]) -> Vec<i64> {
     a.iter().map(|v| img[d.binary_search(v).unwrap()]).collect()
 }
 
-fn argsort_event(run: i64, x: &[f64]) -> Value {
+fn argsort_event(run: i64, x: &[f64], fam: &str) -> Value {
     let r = guard(|| {
         let mut v = x.to_vec();
         let idx = v.quick_argsort_mut();
@@ -251,10 +438,10 @@ fn argsort_event(run: i64, x: &[f64]) -> Value {
             let mut all = x.to_vec();
             all.extend_from_slice(&sorted);
             let rk = dense_ranks(&all);
-            json!({"run": run, "ev": "ArgSort", "status": "ok", "x": rk[..x.len()].to_vec(),
+            json!({"run": run, "ev": "ArgSort", "fam": fam, "status": "ok", "x": rk[..x.len()].to_vec(),
                    "sorted": rk[x.len()..].to_vec(), "index": idx})
         }
-        Err(_) => json!({"run": run, "ev": "ArgSort", "status": "panic",
+        Err(_) => json!({"run": run, "ev": "ArgSort", "fam": fam, "status": "panic",
                          "x": dense_ranks(x), "sorted": [], "index": []}),
     }
 }
@@ -362,7 +549,7 @@ fn main() {
             out = Out::create(arg(args, 2));
             for c in cases.iter() {
                 run = c["run"].as_i64().unwrap_or(0);
-                let ty = if c["ty"] == "f32" { 1 } else { 0 };
+                let ty = if c["ty"] == "f32" { 1 } else if c["ty"] == "nd64" { 2 } else { 0 };
                 match c["ev"].as_str().unwrap_or("") {
                     "Metric" => {
                         let a = as_iv(&c["a"]);
@@ -379,7 +566,7 @@ fn main() {
                     "HCV" => out.emit(hcv(ty, run, &as_iv(&c["a"]), &as_iv(&c["b"]), &as_iv(&c["a2"]), &as_iv(&c["b2"]))),
                     "ArgSort" => {
                         let x: Vec<f64> = as_iv(&c["x"]).iter().map(|&v| v as f64).collect();
-                        out.emit(argsort_event(run, &x));
+                        out.emit(argsort_event(run, &x, c["fam"].as_str().unwrap_or("plain")));
                     }
                     _ => {
                         eprintln!("unknown event in replay file");
@@ -684,7 +871,96 @@ fn main() {
                     .map(|_| if levels == 0 { r.gen::<f64>() } else { r.gen_range(0..levels) as f64 })
                     .collect();
                 run += 1;
-                out.emit(argsort_event(run, &x));
+                out.emit(argsort_event(run, &x, "plain"));
+            }
+            // BACK END family: the same metrics on owned ndarray vectors whose memory order is the
+            // reverse of their logical order (ty "nd64"); asymmetric inputs, so that a reversed
+            // read of either argument changes the value
+            let nnd = if th { 400 } else { 80 };
+            for i in 0..nnd {
+                let n = r.gen_range(2..=40usize);
+                let a = rand_labels(&mut r, n, true);
+                let b = rand_labels(&mut r, n, true);
+                let name = CLASSIF[i % 4];
+                run += 1;
+                emit!(metric(2, run, name, &a, &b, None, 1, 1, 1, 0, 0, "plain", None));
+                let sc: Vec<f64> = (0..n).map(|k| (r.gen_range(0..8) + 3 * a[k]) as f64 + k as f64 / 64.0).collect();
+                let rk = dense_ranks(&sc);
+                run += 1;
+                emit!(metric(2, run, "auc", &a, &rk, Some(&sc), 1, 1, 1, 0, 0, "plain", None));
+                let ya: Vec<i64> = (0..n as i64).map(|k| k + r.gen_range(-2..=2)).collect();
+                let yb: Vec<i64> = ya.iter().map(|&v| v + r.gen_range(-2..=2)).collect();
+                run += 1;
+                emit!(metric(2, run, ["mse", "mae", "r2"][i % 3], &ya, &yb, None, 1, 1, 1, 0, 0, "plain", None));
+                let la: Vec<i64> = (0..n).map(|k| (k * 3 / n) as i64).collect();        // ordered blocks
+                let lb: Vec<i64> = (0..n).map(|k| if r.gen_bool(0.8) { (k * 4 / n) as i64 - 7 } else { r.gen_range(0..4) - 7 }).collect();
+                let a2 = relabel(&mut r, &la);
+                let b2 = relabel(&mut r, &lb);
+                run += 1;
+                out.emit(hcv(2, run, &la, &lb, &a2, &b2));
+            }
+            // ORDER family: median-of-three killers for the index sort behind ROC-AUC (distinct
+            // scores whose partition tree is a chain about n/2 deep), also reversed, mirrored
+            // and with pairs of ties; the sort must neither panic nor mis-sort
+            let klens: &[usize] = if th { &[72, 80, 100, 128, 160, 200, 256, 300, 400] } else { &[80, 100, 128, 200, 300, 400] };
+            for (t, &n) in klens.iter().enumerate() {
+                let base = killer_order(n);
+                let variants: Vec<Vec<i64>> = vec![
+                    base.clone(),
+                    base.iter().rev().cloned().collect(),
+                    base.iter().map(|&k| n as i64 - 1 - k).collect(),
+                    base.iter().map(|&k| k / 2).collect(),
+                ];
+                let nv = if th { 4 } else { 2 + t % 2 };
+                for (vi, keys) in variants.iter().take(nv).enumerate() {
+                    let ty = (t + vi) % 2;
+                    let sc: Vec<f64> = keys.iter().map(|&k| k as f64 / 512.0).collect();
+                    let a = rand_labels(&mut r, n, true);
+                    let rk = dense_ranks(&sc);
+                    run += 1;
+                    emit!(metric(ty, run, "auc", &a, &rk, Some(&sc), 1, 1, 1, 0, 0, "killer", None));
+                    run += 1;
+                    out.emit(argsort_event(run, &sc, "killer"));
+                }
+            }
+            // SIZE ladder: lengths around the powers of two at which a blocked / chunked
+            // implementation changes regime.  Every pairwise metric, AUC and the cluster scores;
+            // the exact definitions are O(n) (AUC: |P| * |N|) for TLC.
+            let ladder: [usize; 8] = [255, 256, 257, 511, 512, 513, 768, 1024];
+            for (t, &n) in ladder.iter().enumerate() {
+                let ty = t % 2;
+                let a = rand_labels(&mut r, n, true);
+                let b = rand_labels(&mut r, n, true);
+                for name in CLASSIF.iter() {
+                    let (b1, b2) = if *name == "fbeta" { BETAS[t % 3] } else { (1, 1) };
+                    run += 1;
+                    emit!(metric(ty, run, name, &a, &b, None, b1, b2, 1, 0, 0, "plain", None));
+                }
+                if n <= 513 {
+                    let sc: Vec<f64> = (0..n).map(|k| (r.gen_range(0..50) + 10 * a[k]) as f64).collect();
+                    let rk = dense_ranks(&sc);
+                    run += 1;
+                    emit!(metric(1 - ty, run, "auc", &a, &rk, Some(&sc), 1, 1, 1, 0, 0, "plain", None));
+                }
+                // residuals that do not vanish anywhere, so that a dropped block shows
+                let u = [1i64, 2][t % 2];
+                let ya: Vec<i64> = (0..n).map(|_| r.gen_range(-2..=2i64)).collect();
+                let yb: Vec<i64> = ya.iter().map(|&v| v + [-1i64, 1][r.gen_range(0..2)]).collect();
+                for name in ["mse", "mae", "r2"].iter() {
+                    for tyy in 0..2 {
+                        run += 1;
+                        emit!(metric(tyy, run, name, &ya, &yb, None, 1, 1, u, 0, 0, "plain", None));
+                    }
+                }
+                if n != 511 && n != 513 && n != 768 {
+                    let (ka, kb) = (r.gen_range(2..=4i64), r.gen_range(2..=4i64));
+                    let la: Vec<i64> = (0..n).map(|_| 3 * r.gen_range(0..ka) - 4).collect();
+                    let lb: Vec<i64> = (0..n).map(|k| if r.gen_bool(0.7) { la[k] + 50 } else { 50 + 3 * r.gen_range(0..kb) - 4 }).collect();
+                    let a2 = relabel(&mut r, &la);
+                    let b2 = relabel(&mut r, &lb);
+                    run += 1;
+                    out.emit(hcv(ty, run, &la, &lb, &a2, &b2));
+                }
             }
         }
         _ => {
